@@ -208,6 +208,10 @@ def plan(ctx):
   ctx.pmap('batching', bc, chunk=12)
   ctx.pmap('histories', [{'copt': c, 'sopt': so, 'depth': 4 if th else 2, 'seed': s}
                          for c in ('sgd', 'mom', 'adam') for so in ('sgd', 'mom', 'adam')], chunk=1)
+  # one long history per optimizer pair (16 rounds, every cohort several times): drift, counters, caches that fill up
+  long_path = ['AB', 'A', 'C', 'BA', 'AC', 'B', 'AB', 'AB', 'C', 'A', 'B', 'AC', 'BA', 'AB', 'A', 'B']
+  ctx.pmap('histories', [{'copt': c, 'sopt': so, 'depth': len(long_path), 'history': long_path, 'seed': s}
+                         for c, so in (('sgd', 'sgd'), ('mom', 'mom'), ('adam', 'sgd'), ('sgd', 'adam'))], chunk=1)
   backs = ['debug', 'pmap1', 'pmap2', 'pmap3']
   dpops = [list(p) for n in (1, 2) for p in itertools.product(SIZES, repeat=n)]
   if not th:
